@@ -269,6 +269,10 @@ func NewTicker(d time.Duration) *Ticker {
 		for {
 			select {
 			case now := <-tk.C:
+				// timers that fire in the same instant wake their goroutines
+				// in an order the runtime does not promise; let the scheduler
+				// decide who sees its tick first
+				Yield("simhook.tick")
 				select {
 				case t.C <- now:
 				default:
